@@ -585,6 +585,105 @@ func genAuth() (string, error) {
 	}
 	emitStr("verifyRLP", "normalised body of VerifyRLPBytes", g.StmtsText(vr.Body.List))
 
+	// ---- batch verifier: every tuple of a lane is verified ------------------------------------------
+	// ApplyTransactions trusts the result of BatchVerifier.Verify (its second pass uses a no-op
+	// verifier), so verifyAll must reach the verification of every key type of its lane.
+	kbF, err := g.ParseFile(filepath.Join(*repo, "lib/crypto/key_batch.go"))
+	if err != nil {
+		return "", err
+	}
+	va := kbF.FindFunc("BatchVerifier", "verifyAll")
+	if va == nil {
+		return "", fmt.Errorf("BatchVerifier.verifyAll not found")
+	}
+	var shape []string
+	var closure string
+	for _, st := range va.Body.List {
+		switch v := st.(type) {
+		case *ast.AssignStmt:
+			if len(v.Rhs) == 1 {
+				if fl, ok := v.Rhs[0].(*ast.FuncLit); ok {
+					shape = append(shape, g.ExprText(v.Lhs[0])+" := func")
+					closure = g.StmtsText(fl.Body.List)
+					continue
+				}
+			}
+			shape = append(shape, g.StmtText(st))
+		case *ast.IfStmt:
+			shape = append(shape, "if "+g.ExprText(v.Cond)+" {…}")
+		default:
+			shape = append(shape, g.StmtText(st))
+		}
+	}
+	// return statements of verifyAll itself (not of the closure) other than its last statement
+	early := 0
+	var walk func(n ast.Node, top bool)
+	walk = func(n ast.Node, top bool) {
+		ast.Inspect(n, func(nd ast.Node) bool {
+			switch nd.(type) {
+			case *ast.FuncLit:
+				return false
+			case *ast.ReturnStmt:
+				early++
+			}
+			return true
+		})
+	}
+	for i, st := range va.Body.List {
+		if _, isRet := st.(*ast.ReturnStmt); isRet && i == len(va.Body.List)-1 {
+			continue
+		}
+		walk(st, true)
+	}
+	emitList("verifyAllShape", "BatchVerifier.verifyAll: top-level statements (closure and if-bodies elided)", shape)
+	emitStr("verifyAllClosure", "BatchVerifier.verifyAll: body of the one-by-one closure verifyBatch", closure)
+	fmt.Fprintf(&b, "/-- return statements of verifyAll (outside the closure) other than its final one -/\ndef verifyAllEarlyReturns : Nat := %d\n\n", early)
+	ad := kbF.FindFunc("BatchVerifier", "Add")
+	if ad == nil {
+		return "", fmt.Errorf("BatchVerifier.Add not found")
+	}
+	var lanes [][2]string
+	ast.Inspect(ad.Body, func(nd ast.Node) bool {
+		if ts, ok := nd.(*ast.TypeSwitchStmt); ok {
+			for _, st := range ts.Body.List {
+				cc := st.(*ast.CaseClause)
+				var ts2 []string
+				for _, e := range cc.List {
+					ts2 = append(ts2, g.ExprText(e))
+				}
+				k := strings.Join(ts2, ", ")
+				if cc.List == nil {
+					k = "default"
+				}
+				lanes = append(lanes, [2]string{k, g.StmtsText(cc.Body)})
+			}
+		}
+		return true
+	})
+	emitPairs("batchAddLanes", "BatchVerifier.Add: (key types, what is done with the tuple)", lanes)
+	// ApplyTransactions: the execution pass does not verify again
+	stF, err := g.ParseFile(filepath.Join(*repo, "fsm/state.go"))
+	if err != nil {
+		return "", err
+	}
+	atx := stF.FindFunc("StateMachine", "ApplyTransactions")
+	if atx == nil {
+		return "", fmt.Errorf("ApplyTransactions not found")
+	}
+	var batchUses []string
+	ast.Inspect(atx.Body, func(nd ast.Node) bool {
+		if c, ok := nd.(*ast.CallExpr); ok {
+			t := g.ExprText(c)
+			if strings.Contains(t, "BatchVerifier") || strings.Contains(t, "batchVerifier") {
+				if !strings.HasPrefix(t, "batchVerifier.Count") {
+					batchUses = append(batchUses, t)
+				}
+			}
+		}
+		return true
+	})
+	emitList("applyTransactionsBatchUses", "ApplyTransactions: every call that involves a batch verifier, source order", batchUses)
+
 	b.WriteString("end Canopy.Gen.Auth\n")
 	return b.String(), nil
 }
